@@ -6,6 +6,7 @@ import (
 	"encoding/json"
 	"fmt"
 	"sort"
+	"strings"
 
 	"github.com/tdakkota/docker-logql/internal/logql/logqlengine"
 	"github.com/tdakkota/docker-logql/internal/zzverif/mockq"
@@ -27,6 +28,8 @@ var c08Recs = []mockq.Rec{
 	{Line: `p`, Labels: []mockq.KV{{K: "a", V: `x`}}},
 	{Line: `{"a":1}`, Labels: nil},
 	{Line: `{"a":"1"}`, Labels: nil},
+	// the values of record 2 swapped between its labels: an order-insensitive combination of names and values confuses the two
+	{Line: `p`, Labels: []mockq.KV{{K: "a", V: `y`}, {K: "b", V: `x`}}},
 }
 
 type c08Input struct {
@@ -64,6 +67,10 @@ func c08Data(in c08Input) []mockq.Rec {
 			r.TS = 5 * sec
 		case "pairs":
 			r.TS = int64(i/2+1) * sec
+		default: // "perm:2,0,1": the storage delivers the records out of time order
+			var ts int64
+			fmt.Sscanf(strings.Split(strings.TrimPrefix(in.Times, "perm:"), ",")[i], "%d", &ts)
+			r.TS = (ts + 1) * sec
 		}
 		out = append(out, r)
 	}
@@ -89,7 +96,12 @@ func c08Check(r *vkit.Run, in c08Input) bool {
 	q := c08Q[in.Query]
 	data := c08Data(in)
 	in.Text = q.Text()
-	res := evalLog(data, logqlengine.QuerierCapabilities{}, in.Text, in.Limit)
+	var res logResult
+	if strings.HasPrefix(in.Times, "perm:") {
+		res = evalLogOn(newEngine(mockq.NewUnsorted(data)), in.Text, 0, 1<<40, in.Limit)
+	} else {
+		res = evalLog(data, logqlengine.QuerierCapabilities{}, in.Text, in.Limit)
+	}
 	r.Eval()
 	r.Step(len(data) + 1)
 	all := refmodel.EvalLog(q, data, -1)
@@ -225,7 +237,49 @@ func c08Run(r *vkit.Run) {
 		}
 		r.State(fmt.Sprint(s))
 	}
-	r.Note("bounds", fmt.Sprintf("all record sequences of length <=%d over an 8-record alphabet with quoting-sensitive label values (plus longer sets) x 3 timestamp patterns (increasing, all equal, pairwise ties) x %d label-rewriting queries x limits {-5,-1,0,1,2,N-1,N,N+1}", maxLen, len(c08Q)))
+	// delivery out of time order (a container's own log need not be time-ordered): every permutation of the
+	// timestamps of one-stream and two-stream data sets; no limit (which records a limit picks from unordered
+	// storage is not defined by the property)
+	for _, s := range [][]int{{7, 7, 7}, {7, 7, 7, 7}, {7, 0, 7, 0}, {0, 7, 7, 0, 7}, {7, 7, 7, 7, 7}} {
+		n := len(s)
+		perm := make([]int, n)
+		for i := range perm {
+			perm[i] = i
+		}
+		var all [][]int
+		var gen func(k int)
+		gen = func(k int) {
+			if k == n {
+				all = append(all, append([]int(nil), perm...))
+				return
+			}
+			for i := k; i < n; i++ {
+				perm[k], perm[i] = perm[i], perm[k]
+				gen(k + 1)
+				perm[k], perm[i] = perm[i], perm[k]
+			}
+		}
+		gen(0)
+		for _, pm := range all {
+			idx++
+			if !r.Mine(idx) || r.Stop() {
+				continue
+			}
+			var parts []string
+			for _, v := range pm {
+				parts = append(parts, fmt.Sprint(v))
+			}
+			for _, qi := range []int{0, 3} {
+				for _, lim := range []int{-1, 0} {
+					if c08Check(r, c08Input{Recs: s, Times: "perm:" + strings.Join(parts, ","), Query: qi, Limit: lim}) {
+						r.NonTrivial()
+					}
+				}
+			}
+			r.State(fmt.Sprint(s, pm))
+		}
+	}
+	r.Note("bounds", fmt.Sprintf("all record sequences of length <=%d over an 8-record alphabet with quoting-sensitive label values (plus longer sets) x 3 timestamp patterns (increasing, all equal, pairwise ties) x %d label-rewriting queries x limits {-5,-1,0,1,2,N-1,N,N+1}; every permutation of the delivery order of 3-5 records of one or two streams (no limit)", maxLen, len(c08Q)))
 }
 
 func c08Replay(r *vkit.Run, v vkit.Violation) *vkit.Violation {
